@@ -7,6 +7,7 @@ CONSTANTS
   AnyOrder = FALSE
   NB = 1
   MaxOps = 0
+  Group = "none"
   Record = TRUE
   Slice = 0
   NSlices = 1
